@@ -44,11 +44,23 @@ def _int(v):
     return toint(v)
 
 
-def sp_forall(ex, e, st, exists=False):
+def sp_forall(ex, e, st, exists=False, expand=True):
     lam = e.args[0]
     if not isinstance(lam, ast.Lambda):
         raise ValueError("forall needs a lambda")
     names = [a.arg for a in lam.args.args]
+    if len(names) == 1 and len(e.args) >= 3:
+        lo_l, hi_l = lit(_int(ex.ev(e.args[1], st))), lit(_int(ex.ev(e.args[2], st)))
+        if expand and lo_l is not None and hi_l is not None and hi_l - lo_l <= 8:
+            # a quantifier over a small literal range is a finite conjunction / disjunction: expand it (nothing for E-matching to guess)
+            parts = []
+            for val_ in range(lo_l, hi_l):
+                t_ = st.clone()
+                t_.env[names[0]] = iv(val_)
+                parts.append(_bool(ex.ev(lam.body, t_)))
+            if exists:
+                return z3.Or(*parts) if parts else z3.BoolVal(False)
+            return z3.And(*parts) if parts else z3.BoolVal(True)
     t = st.clone()
     vs = []
     for n in names:
@@ -596,7 +608,7 @@ def sp_accepts(ex, e, st):
 
 
 SPEC = {
-    "forall": sp_forall, "exists": lambda ex, e, st: sp_forall(ex, e, st, exists=True), "implies": sp_implies, "old": sp_old,
+    "forall": sp_forall, "forall_q": lambda ex, e, st: sp_forall(ex, e, st, expand=False), "exists": lambda ex, e, st: sp_forall(ex, e, st, exists=True), "implies": sp_implies, "old": sp_old,
     "digits": sp_digits, "val": sp_val, "dval": sp_dval, "val2": sp_val2, "canon": sp_canon, "ipow": sp_ipow, "dig": sp_dig,
     "same": sp_same_seq, "upd": sp_upd, "accepts": sp_accepts, "shuffled_row": sp_shuffled_row, "rng_is": sp_rng_is, "row_is": sp_row_is, "rdeg": sp_rdeg, "rarc": sp_rarc, "rdigit": sp_rdigit, "is_perm_row": sp_is_perm_row, "row": sp_row, "rwalkv": sp_rwalkv, "A2": sp_A2, "vt_matches": sp_vt_matches, "rwt": sp_rwt, "rlv": sp_rlv, "rhv": sp_rhv, "here": sp_here, "deg": sp_deg, "arc_of_digit": sp_arc_of_digit, "digit_of_arc": sp_digit_of_arc, "is_accessor": sp_is_accessor,
     "is_table": sp_is_table, "first": sp_first, "second": sp_second, "dec_step": sp_dec_step, "walkv": sp_walkv, "enc_step": sp_enc_step, "link": sp_link, "wt": sp_wt, "lv": sp_lv, "hv": sp_hv, "ascents": sp_ascents, "nsucc": sp_nsucc, "rsum": sp_rsum, "code": sp_code, "dnav": sp_dnav, "codes": sp_codes, "is_dna": sp_is_dna, "pv": sp_pv, "store": sp_store, "A": sp_A, "D": sp_D, "P": sp_P, "seq_is": sp_seq_is, "seq_is_cons": sp_seq_is_cons, "ite": sp_ite, "isnone": sp_isnone, "cnt": sp_cnt, "ssum": sp_ssum,
